@@ -105,7 +105,7 @@ class WriterRun(object):
 
   def build(self):
     wm = self.wm
-    self.sched = sched.Scheduler(files=wm.files, max_steps=60000)
+    self.sched = sched.Scheduler(files=() if self.cfg.get('coarse') else wm.files, max_steps=60000)
     st = SchedTime(self)
     wm.writer.time = st
     wm.cache.time = st
